@@ -571,7 +571,76 @@ fn decision_rows(repo: &Path) -> Vec<(String, String)> {
             die(format!("{}: expected exactly one `{}` decision, found {}", f, want, n));
         }
     }
+    c.rows.extend(capacity_rows(repo));
     c.rows.sort();
+    c.rows
+}
+
+// the capacity of a subscriber's list of expired connections (port/subscriber.rs, Subscriber::new)
+struct CapFinder {
+    in_fn: Option<String>,
+    in_field: bool,
+    rows: Vec<(String, String)>,
+}
+
+fn tail_expr(b: &syn::Block) -> String {
+    match b.stmts.last() {
+        Some(syn::Stmt::Expr(e, None)) => toks(e),
+        _ => "?".into(),
+    }
+}
+
+impl<'ast> syn::visit::Visit<'ast> for CapFinder {
+    fn visit_impl_item_fn(&mut self, f: &'ast syn::ImplItemFn) {
+        let prev = self.in_fn.replace(f.sig.ident.to_string());
+        syn::visit::visit_impl_item_fn(self, f);
+        self.in_fn = prev;
+    }
+    fn visit_local(&mut self, l: &'ast syn::Local) {
+        if self.in_fn.as_deref() == Some("new") && toks(&l.pat) == "number_of_to_be_removed_connections" {
+            if let Some(init) = &l.init {
+                let text = match &*init.expr {
+                    syn::Expr::If(e) => {
+                        let els = match &e.else_branch {
+                            Some((_, b)) => match &**b { syn::Expr::Block(bb) => tail_expr(&bb.block), o => toks(o) },
+                            None => "?".into(),
+                        };
+                        format!("if {} then {} else {}", toks(&*e.cond), tail_expr(&e.then_branch), els)
+                    }
+                    o => toks(o),
+                };
+                self.rows.push(("Subscriber::new.number_of_to_be_removed_connections".into(), text));
+            }
+        }
+        syn::visit::visit_local(self, l);
+    }
+    fn visit_field_value(&mut self, fv: &'ast syn::FieldValue) {
+        let is = self.in_fn.as_deref() == Some("new") && toks(&fv.member) == "to_be_removed_connections";
+        let prev = self.in_field;
+        if is { self.in_field = true; }
+        syn::visit::visit_field_value(self, fv);
+        self.in_field = prev;
+    }
+    fn visit_expr_call(&mut self, c: &'ast syn::ExprCall) {
+        if self.in_field && toks(&*c.func).replace(' ', "") == "PolymorphicVec::new" && c.args.len() == 2 {
+            self.rows.push(("Subscriber::new.to_be_removed_connections.capacity".into(), toks(&c.args[1])));
+        }
+        syn::visit::visit_expr_call(self, c);
+    }
+}
+
+fn capacity_rows(repo: &Path) -> Vec<(String, String)> {
+    let f = "iceoryx2/src/port/subscriber.rs";
+    let src = std::fs::read_to_string(repo.join(f)).unwrap_or_else(|e| die(format!("{}: {}", f, e)));
+    let ast = syn::parse_file(&src).unwrap_or_else(|e| die(format!("{}: parse error: {}", f, e)));
+    let mut c = CapFinder { in_fn: None, in_field: false, rows: vec![] };
+    syn::visit::Visit::visit_file(&mut c, &ast);
+    for want in ["Subscriber::new.number_of_to_be_removed_connections", "Subscriber::new.to_be_removed_connections.capacity"] {
+        let n = c.rows.iter().filter(|r| r.0 == want).count();
+        if n != 1 {
+            die(format!("{}: expected exactly one `{}` row, found {}", f, want, n));
+        }
+    }
     c.rows
 }
 
